@@ -7,7 +7,7 @@
    run loop.  Go's channel (capacity 1 = one-slot option) and sync.Mutex (atomic sections)
    semantics are assumed by the model. *)
 From Eino Require Import Base.Util Model.TaskMgr Model.Confluence.
-From Eino Require Import Proofs.TaskMgr Proofs.TaskMgrProgress Proofs.TaskMgrTrace Proofs.Confluence.
+From Eino Require Import Proofs.TaskMgr Proofs.TaskMgrProgress Proofs.TaskMgrTrace Proofs.Confluence Proofs.Eager.
 From Coq Require Import Permutation.
 
 (* ---- every finished task is in exactly one of l / done / the collector's hands / collected;
@@ -38,8 +38,8 @@ Print Assumptions tm_variant.
 
 (* waitAll (batch mode; also what an eager run would need before returning): on every maximal
    sequence of protocol steps the collector ends idle with nothing outstanding and has collected
-   exactly the submitted tasks.  The named hypothesis that carves out finding F-C03 is [drained]:
-   the conclusion is about runs whose run loop keeps waiting until num = 0. *)
+   exactly the submitted tasks (an eager run stops waiting earlier: when END is ready or a node
+   failed; what it has collected until then is covered by tm_exactly_once / tm_progress_one). *)
 Theorem tm_progress : forall s, reach s ->
   AF (fun s' => drained s' /\ Permutation (map fst (collected s')) (map fst (epcs s))) s.
 Proof. exact progress_all. Qed.
@@ -88,30 +88,86 @@ Theorem report_diamond : forall g s a b,
 Proof. exact report_diamond. Qed.
 Print Assumptions report_diamond.
 
-(* ---- finding F-C03 (known, not repaired): an eager run returns as soon as END is ready; a node
-        that does not feed END is then still running and is never collected.  Witness:
-        START -> {3, 4}, only 3 feeds END.  (corpus/C03/f_c03_eager_slow_non_ancestor.json) ---- *)
-Definition g_fc03 : graph := [mkn 3 [0%N] 0; mkn 4 [0%N] 0; mkn 1 [3%N] 0].
+(* ---- eager mode (Workflow): [pick] = any schedule (which running task completes next).
+        Two runs that deliver a value deliver the same value, computed from the same executions
+        (with the same inputs) of the nodes that feed END - for every graph, failing nodes or not ---- *)
+Theorem eager_value_unique : forall g pick1 pick2 f1 f2 v1 v2 l1 l2 r1 r2,
+  NoDup (map n_id g) -> ~ In START (map n_id g) ->
+  eager pick1 g f1 = (ODone v1, l1, r1) -> eager pick2 g f2 = (ODone v2, l2, r2) ->
+  v1 = v2 /\ Permutation (feeding g l1) (feeding g l2).
+Proof. exact eager_value_unique. Qed.
+Print Assumptions eager_value_unique.
 
-Theorem eager_return_leaves_uncollected_refuted :
-  ~ (forall pick g fuel v log left,
-       NoDup (map n_id g) -> eager pick g fuel = (ODone v, log, left) -> left = []).
+(* every schedule reaches the same outcome (value / failure) and the same execution multiset
+   feeding END.  Named hypothesis [failing_feed_end] (carves out finding F-C03c): every node that
+   fails feeds END.  Fuel: more than the number of nodes is enough, and is never exhausted. *)
+Theorem eager_confluent : forall g pick1 pick2 f1 f2,
+  NoDup (map n_id g) -> ~ In START (map n_id g) -> failing_feed_end g ->
+  (List.length g < f1)%nat -> (List.length g < f2)%nat ->
+  fst (fst (eager pick1 g f1)) = fst (fst (eager pick2 g f2)) /\
+  (forall v, fst (fst (eager pick1 g f1)) = ODone v ->
+     Permutation (feeding g (snd (fst (eager pick1 g f1)))) (feeding g (snd (fst (eager pick2 g f2))))).
+Proof. exact eager_confluent. Qed.
+Print Assumptions eager_confluent.
+
+Theorem eager_fuel_enough : forall g pick f,
+  NoDup (map n_id g) -> ~ In START (map n_id g) -> (List.length g < f)%nat ->
+  fst (fst (eager pick g f)) <> OFuel.
+Proof. exact eager_fuel_enough. Qed.
+Print Assumptions eager_fuel_enough.
+
+(* the schedule the correspondence check evaluates for a value ([pick_ok]: the oldest running task
+   that does not fail) delivers the value whenever some schedule does *)
+Theorem eager_ok_complete : forall g pick f fuel v l r,
+  NoDup (map n_id g) -> ~ In START (map n_id g) ->
+  eager pick g f = (ODone v, l, r) -> (List.length g < fuel)%nat ->
+  exists l' r', eager pick_ok g fuel = (ODone v, l', r') /\ Permutation (feeding g l) (feeding g l').
+Proof. exact eager_ok_complete. Qed.
+Print Assumptions eager_ok_complete.
+
+(* an eager run does not return a value before the nodes feeding END have finished: none of them
+   is among the nodes still running at the return *)
+Theorem eager_done_ancestors_finished : forall g pick f v log left,
+  NoDup (map n_id g) -> ~ In START (map n_id g) ->
+  eager pick g f = (ODone v, log, left) -> forall x, In x left -> ~ In x (ancestors g).
+Proof. exact eager_done_ancestors_finished. Qed.
+Print Assumptions eager_done_ancestors_finished.
+
+(* ---- finding F-C03c (known, not repaired): with a failing node that does not feed END the outcome
+        of an eager run depends on the schedule: END's value if END becomes ready first, the node's
+        error if the failure is collected first.  Witness: START -> {3, 4}, only 3 feeds END, 4 fails.
+        (corpus/C03/f_c03c_eager_failing_non_ancestor.json) ---- *)
+Definition g_fc03c : graph := [mkn 3 [0%N] 0; mkn 4 [0%N] 1; mkn 1 [3%N] 0].
+
+Theorem eager_outcome_schedule_dependent_refuted :
+  ~ (forall pick1 pick2 g fuel,
+       NoDup (map n_id g) ->
+       fst (fst (eager pick1 g fuel)) = fst (fst (eager pick2 g fuel))).
 Proof.
-  intros H. specialize (H (fun _ => O) g_fc03 10%nat).
-  assert (E : eager (fun _ => O) g_fc03 10 = (ODone [3;0;2;0;1;1]%N, [(3, [2;0;1]); (4, [2;0;1])]%N, [4%N]))
-    by (vm_compute; reflexivity).
-  specialize (H _ _ _ ltac:(vm_compute; repeat constructor; simpl; intuition discriminate) E).
-  discriminate H.
+  intros H. specialize (H (fun _ => 0%nat) (fun _ => 1%nat) g_fc03c 10%nat).
+  assert (Hn : NoDup (map n_id g_fc03c)) by (vm_compute; repeat constructor; simpl; intuition discriminate).
+  specialize (H Hn). vm_compute in H. discriminate H.
 Qed.
-Print Assumptions eager_return_leaves_uncollected_refuted.
+Print Assumptions eager_outcome_schedule_dependent_refuted.
+
+(* ---- permitted behaviour, for the record: an eager run returns as soon as END is ready; a node
+        that does not feed END may then still be running and is never collected (the statement only
+        requires the nodes feeding END to have finished).  START -> {3, 4}, only 3 feeds END.
+        (corpus/C03/eager_slow_non_ancestor.json) ---- *)
+Definition g_side : graph := [mkn 3 [0%N] 0; mkn 4 [0%N] 0; mkn 1 [3%N] 0].
+
+Example eager_may_leave_non_ancestor_running :
+  eager pick_first g_side 10 = (ODone [3;0;2;0;1;1]%N, [(3, [2;0;1]); (4, [2;0;1])]%N, [4%N]) /\
+  ancestors g_side = [0; 3; 1]%N.
+Proof. vm_compute. split; reflexivity. Qed.
 
 (* the same in the protocol model: the run loop may stop (cp = CIdle) with a task outstanding *)
-Example fc03_protocol_state :
+Example protocol_state_with_outstanding_task :
   exists s, reach s /\ cp s = CIdle /\ num s = 1%nat /\ List.length (collected s) = 1%nat /\ List.length (epcs s) = 2%nat.
 Proof.
   destruct (run_trace init 0
      [EvSpawn 3 BOk; EvSpawn 4 BOk; EvAwait; EvLockE 3; EvPush 3 false; EvSend 3; EvUnlockE 3;
-      EvRecv 3 false; EvLockC; EvUnlockC]) as [s|] eqn:E; [|vm_compute in E; discriminate].
+      EvRecv 3 false; EvLockC; EvUnlockC]%N) as [s|] eqn:E; [|vm_compute in E; discriminate].
   exists s. split; [eapply run_trace_sound; [apply r_init|exact E]|].
   vm_compute in E. inversion E; subst; simpl. repeat split.
 Qed.
@@ -124,7 +180,7 @@ Definition tr_demo : list ev :=
    EvAwait; EvRecv 3 false; EvLockC; EvUnlockC;
    EvSpawn 4 BPanic; EvSpawn 5 BErr;
    EvLockE 4; EvPush 4 true; EvSend 4; EvUnlockE 4;
-   EvLockE 5; EvPush 5 true; EvFull; EvUnlockE 5].
+   EvLockE 5; EvPush 5 true; EvFull; EvUnlockE 5]%N.
 
 Example tm_nonvacuous :
   exists s, run_trace init 0 tr_demo = inl s /\ reach s /\
@@ -153,7 +209,7 @@ Qed.
 Example accepts_nonvacuous :
   accepts [EvSpawn 3 BOk; EvSpawn 4 BOk; EvAwait; EvLockE 3; EvPush 3 false; EvSend 3; EvUnlockE 3;
            EvLockE 4; EvPush 4 false; EvSend 4; EvRecv 3 false; EvUnlockE 4; EvLockC; EvUnlockC;
-           EvAwait; EvRecv 4 false; EvLockC; EvUnlockC; EvEmpty] = true.
+           EvAwait; EvRecv 4 false; EvLockC; EvUnlockC; EvEmpty]%N = true.
 Proof. vm_compute. reflexivity. Qed.
 
 (* batch: a step with three completed tasks, two orders, same next tasks *)
@@ -165,3 +221,40 @@ Example batch_nonvacuous :
   fst (batch (fun l => l) Dag g_demo 20) =
     ODone [6;0;3;0;2;0;1;1;4;0;2;0;1;1;1; 7;0;4;0;2;0;1;1;5;0;2;0;1;1;1]%N.
 Proof. vm_compute. split; reflexivity. Qed.
+
+(* eager: a graph with a side chain (4 -> 7 -> 8 does not feed END) and a fan-in; two schedules,
+   one value, different logs and different nodes left running, the same executions feeding END;
+   the hypotheses of eager_confluent hold *)
+Definition g_eager : graph :=
+  [mkn 3 [0%N] 0; mkn 4 [0%N] 0; mkn 5 [0%N] 0; mkn 6 [3%N; 5%N] 0; mkn 7 [4%N] 0; mkn 8 [7%N] 0;
+   mkn 1 [3%N; 6%N] 0].
+Definition pick_last (l : list (node * val)) : nat := (List.length l - 1)%nat.
+
+Example eager_nonvacuous :
+  NoDup (map n_id g_eager) /\ ~ In START (map n_id g_eager) /\ failing_feed_end g_eager /\
+  fst (fst (eager pick_first g_eager 8)) = ODone [3;0;2;0;1;1; 6;0;3;0;2;0;1;1;5;0;2;0;1;1;1]%N /\
+  fst (fst (eager pick_last g_eager 8)) = fst (fst (eager pick_first g_eager 8)) /\
+  snd (eager pick_first g_eager 8) = [8%N] /\
+  snd (eager pick_last g_eager 8) = [] /\
+  snd (fst (eager pick_first g_eager 8)) <> snd (fst (eager pick_last g_eager 8)) /\
+  feeding g_eager (snd (fst (eager pick_first g_eager 8))) =
+    [(3, [2;0;1]); (5, [2;0;1]); (6, [3;0;2;0;1;1;5;0;2;0;1;1])]%N /\
+  feeding g_eager (snd (fst (eager pick_last g_eager 8))) =
+    feeding g_eager (snd (fst (eager pick_first g_eager 8))).
+Proof.
+  split; [vm_compute; repeat constructor; simpl; intuition discriminate|].
+  split; [vm_compute; intuition discriminate|].
+  split; [intros n Hn Hf; vm_compute in Hn; intuition (subst; try (exfalso; apply Hf; reflexivity))|].
+  vm_compute. repeat split; try reflexivity. discriminate.
+Qed.
+
+(* a failing node that feeds END: every schedule fails (hypotheses of eager_confluent hold) *)
+Definition g_eager_fail : graph := [mkn 3 [0%N] 0; mkn 4 [0%N] 2; mkn 5 [3%N; 4%N] 0; mkn 1 [5%N] 0].
+Example eager_fail_nonvacuous :
+  failing_feed_end g_eager_fail /\
+  fst (fst (eager pick_first g_eager_fail 5)) = OFail /\ fst (fst (eager pick_ok g_eager_fail 5)) = OFail.
+Proof.
+  split; [intros n Hn Hf; vm_compute in Hn; vm_compute;
+          intuition (subst; try (exfalso; apply Hf; reflexivity); auto)|].
+  vm_compute. split; reflexivity.
+Qed.
